@@ -150,7 +150,7 @@ func main() {
 	defer sn.CleanupScratch()
 	w, err := corpus.BuildOpt(sn.DefaultConfig(), 35)
 	if err != nil {
-		r.Inconclusive("cannot build base world: " + err.Error())
+		corpusFailure(r, "cannot build base world: ", err)
 		r.Finish()
 	}
 	e := &env{r: r, w: w, n: w.N, ts: 6000}
@@ -365,6 +365,18 @@ func (e *env) program(rng *rand.Rand, i int, block *[]*pb.Transaction) {
 	_ = contract.MaxLimits
 }
 
+// corpusFailure: the corpus is made of honest transactions - pre-executed on the node, assembled,
+// signed. When the node refuses one that calls a contract, the first sentence of the statement is
+// broken; any other failure to build it leaves the run without a verdict.
+func corpusFailure(r *ev.Run, what string, err error) {
+	msg := err.Error()
+	if strings.Contains(msg, "does not verify") && strings.Contains(msg, "corpus: contract") {
+		r.Violation("verify|pre-executed-transaction-rejected|corpus", "an honest corpus transaction (pre-executed, assembled, signed, submitted against the same state) is refused: "+msg, nil)
+		return
+	}
+	r.Inconclusive(what + msg)
+}
+
 func sameOutputMultiset(a, b []*protos.TxOutput) bool {
 	if len(a) != len(b) {
 		return false
@@ -404,7 +416,7 @@ func (e *env) tamper() {
 	r := e.r
 	w, err := corpus.Build(sn.DefaultConfig()) // fresh world: every item valid on its state
 	if err != nil {
-		r.Inconclusive("cannot rebuild corpus for tampering: " + err.Error())
+		corpusFailure(r, "cannot rebuild corpus for tampering: ", err)
 		return
 	}
 	n := w.N
